@@ -17,7 +17,7 @@ def run(ctx):
     def gen(rng, i):
         # every 8th case: constants around the float16 overflow threshold (a float16 cast must round to nearest, incl. to inf)
         return fp.gen_case(rng, i, const_kinds=gm.HUGE_KINDS) if i % 8 == 5 else fp.gen_case(rng, i)
-    fp.explore(ctx, drv, 200 if ctx.tier == "quick" else 4000, per_case, gen=gen, graph_corr=False, pipe_corr=True)
+    fp.explore(ctx, drv, 600 if ctx.tier == "quick" else 4000, per_case, gen=gen, graph_corr=False, pipe_corr=True)
     drv.close()
     return common.finish(ctx)
 
